@@ -5,6 +5,7 @@ import (
 	"io"
 	"net"
 	"sync"
+	"time"
 
 	ws "github.com/gorilla/websocket"
 	"github.com/zishang520/engine.io-go-parser/packet"
@@ -82,7 +83,7 @@ func (w *websocket) message() {
 		switch mt {
 		case ws.BinaryMessage:
 			read := types.NewBytesBuffer(nil)
-			if _, err := read.ReadFrom(message); err != nil {
+			if err := w.readMessage(read, message); err != nil {
 				if errors.Is(err, net.ErrClosed) {
 					w.socket.Emit("close")
 				} else {
@@ -93,7 +94,7 @@ func (w *websocket) message() {
 			}
 		case ws.TextMessage:
 			read := types.NewStringBuffer(nil)
-			if _, err := read.ReadFrom(message); err != nil {
+			if err := w.readMessage(read, message); err != nil {
 				if errors.Is(err, net.ErrClosed) {
 					w.socket.Emit("close")
 				} else {
@@ -115,6 +116,24 @@ func (w *websocket) message() {
 			c.Close()
 		}
 	}
+}
+
+// readMessage reads a message into buf, bounded by the maximum payload size: the read limit of the
+// connection counts the bytes on the wire, a compressed message can be far larger once inflated.
+func (w *websocket) readMessage(buf types.BufferInterface, message io.Reader) error {
+	max := w.socket.MaxPayload
+	if max <= 0 {
+		_, err := buf.ReadFrom(message)
+		return err
+	}
+	if _, err := buf.ReadFrom(io.LimitReader(message, max+1)); err != nil {
+		return err
+	}
+	if int64(buf.Len()) > max {
+		w.socket.WriteControl(ws.CloseMessage, ws.FormatCloseMessage(ws.CloseMessageTooBig, ""), time.Now().Add(time.Second))
+		return ws.ErrReadLimit
+	}
+	return nil
 }
 
 func (w *websocket) onMessage(data types.BufferInterface) {
